@@ -1,7 +1,7 @@
 (* Props/C13.v -- statements claimed for C13 (geometric measures), about Model/TriaGeom.v over R. *)
 From Coq Require Import List Arith Reals.
 From LaPyV Require Import Base.Scalar Base.Vec3 Base.ListAux Base.Sparse Model.TetMesh Model.TriaAdj Model.TriaOrient
-  Model.Fem Model.TriaGeom Proofs.SparseP Proofs.FemTriaP Proofs.TriaGeomP Proofs.TriaOrientP Proofs.TriaAdjP Proofs.InvarianceP Proofs.VolumeTransP.
+  Model.Fem Model.TriaGeom Proofs.SparseP Proofs.FemTriaP Proofs.TriaGeomP Proofs.TriaOrientP Proofs.TriaAdjP Proofs.InvarianceP Proofs.VolumeTransP Proofs.NormalOffsetP.
 Import ListNotations.
 Open Scope R_scope.
 
@@ -78,3 +78,29 @@ Print Assumptions C13_volume_is_translation_invariant.
 Example C13_volume_translation_example : is_closed vt_ts = true /\ is_oriented vt_ts = true /\ tria_volume Rops vt_v vt_ts = Ok (1 / 6) /\
   tria_volume Rops (translate (5, -3, 2) vt_v) vt_ts = Ok (1 / 6).
 Proof. exact volume_example. Qed.
+
+(* normal_offset_(d): the mesh keeps its size, vertex i becomes v_i + d * n_i with n the vertex normals before the move, and the
+   displacement has length exactly |d| (squared: d^2) -- or the vertex normal there is a negligible raw sum (previous theorem) *)
+Theorem C13_normal_offset_moves_every_vertex_by_d_along_its_normal : forall d v ts v', normal_offset Rops d v ts = Ok v' ->
+  exists nl, vertex_normals Rops (length v) v ts = Ok nl /\ length nl = length v /\ length v' = length v /\
+    forall i, (i < length v)%nat ->
+      getv Rops v' i = vadd Rops (getv Rops v i) (vscale Rops d (getv Rops nl i)) /\
+      (dot Rops (getv Rops nl i) (getv Rops nl i) = 1 ->
+       dot Rops (vsub Rops (getv Rops v' i) (getv Rops v i)) (vsub Rops (getv Rops v' i) (getv Rops v i)) = d * d).
+Proof. exact normal_offset_spec. Qed.
+Print Assumptions C13_normal_offset_moves_every_vertex_by_d_along_its_normal.
+
+Theorem C13_normal_offset_distance_is_d_or_normal_negligible : forall d v ts v', normal_offset Rops d v ts = Ok v' ->
+  length v' = length v /\
+  forall i, (i < length v)%nat ->
+    dot Rops (vsub Rops (getv Rops v' i) (getv Rops v i)) (vsub Rops (getv Rops v' i) (getv Rops v i)) = d * d \/
+    exists w, getv Rops v' i = vadd Rops (getv Rops v i) (vscale Rops d w) /\ norm Rops w <= eps52 Rops * vn_max (length v) v ts.
+Proof. exact normal_offset_moves_by_d. Qed.
+Print Assumptions C13_normal_offset_distance_is_d_or_normal_negligible.
+
+(* the premise holds for every oriented mesh and for no other *)
+Theorem C13_normal_offset_defined_iff_oriented : forall d v ts,
+  (is_oriented ts = true -> exists v', normal_offset Rops d v ts = Ok v') /\
+  (is_oriented ts = false -> normal_offset Rops d v ts = Err ValueError).
+Proof. exact normal_offset_defined_iff_oriented. Qed.
+Print Assumptions C13_normal_offset_defined_iff_oriented.
